@@ -489,6 +489,8 @@ pub fn drive<H: Host>(scn: &Scenario, world: &Arc<World>, host: &mut H, inputs: 
         live[t] = false;
     };
 
+    let mut prio: Vec<u32> = (0..n).map(|t| scn.exec.priorities.get(t).copied().unwrap_or(0)).collect();
+    let pct = !scn.exec.priorities.is_empty();
     let mut step: u32 = 0;
     loop {
         // ---- start whatever may start
@@ -564,6 +566,10 @@ pub fn drive<H: Host>(scn: &Scenario, world: &Arc<World>, host: &mut H, inputs: 
         let mut do_advance = false;
         if pick.advance && qlen > 0 {
             do_advance = true;
+        } else if pct && !woken.is_empty() {
+            // highest priority among the woken tasks (ties: lowest id)
+            let best = *woken.iter().max_by_key(|t| (prio[**t], std::cmp::Reverse(**t))).unwrap();
+            to_poll = Some((best, false));
         } else if pref < n && live[pref] && (board.woken[pref].load(Ordering::SeqCst) || pick.spurious) {
             to_poll = Some((pref, !board.woken[pref].load(Ordering::SeqCst)));
         } else if !woken.is_empty() {
@@ -595,6 +601,13 @@ pub fn drive<H: Host>(scn: &Scenario, world: &Arc<World>, host: &mut H, inputs: 
         }
 
         let (t, spurious) = to_poll.unwrap();
+        if pct {
+            for (at, newp) in &scn.exec.prio_changes {
+                if *at == step - 1 {
+                    prio[t] = *newp;
+                }
+            }
+        }
         if let Some(lp) = last_polled {
             if lp != t && live[lp] {
                 stats.interleave_switch += 1;
